@@ -224,7 +224,11 @@ World *build_forward(const J &plan)
 		uint64_t k = ++fw->nfw;
 		fw->srv_bind_addr = d.src; fw->have_bind_addr = true;
 		auto reply = [&](uint16_t id, uint64_t delay, const Bytes &question) {
-			Bytes a; put16(a, id); a.push_back(0x81); a.push_back(0x80); put16(a, 1); put16(a, 1); put16(a, 0); put16(a, 0);
+			// header flags as different local servers set them: recursive (RA), authoritative-only (AA, no RA), referral, REFUSED ...
+			static const uint8_t fl[][2] = {{0x81, 0x80}, {0x81, 0x80}, {0x85, 0x00}, {0x80, 0x00}, {0x81, 0x00}, {0x84, 0x05}, {0x81, 0x83}, {0x83, 0x80}, {0x81, 0xa0}};
+			uint64_t fk = fw->reply_serial + 1;
+			const uint8_t *ff = fl[S.D("ldns.flags", fk) % 9];
+			Bytes a; put16(a, id); a.push_back(ff[0]); a.push_back(ff[1]); put16(a, 1); put16(a, 1); put16(a, 0); put16(a, 0);
 			a.insert(a.end(), question.begin(), question.end());
 			// one TXT answer with a unique marker so that every reply is distinguishable
 			a.push_back(0xc0); a.push_back(12); put16(a, 16); put16(a, 1); put32(a, 60);
